@@ -302,6 +302,9 @@ class Emit:
     def __init__(s, m, roots, models, opts):
         s.m = m; s.out = []; s.structs_done = set(); s.lit_structs = {}; s.decls = []
         s.roots = roots; s.models = models; s.opts = opts
+        s.retype = {}
+        for nm, ts in opts.get('retype', {}).items():
+            if nm in m.types: s.retype[nm] = P(lex(ts)).type()
         s.used_globals = []; s.used_funcs = []; s.seen = set()
         s.unmodelled = set()
 
@@ -350,6 +353,14 @@ class Emit:
         if name in s.structs_done: return
         s.structs_done.add(name)
         t = s.m.types[name]
+        if name in s.retype:
+            # byte-array storage (e.g. __aligned_membuf) given the type of the object that lives in it, so that
+            # CBMC sees typed fields instead of byte_extract/byte_update over a char array
+            x = s.retype[name]
+            pad = s.llsize(t)[0] - s.llsize(x)[0]
+            assert pad >= 0, 'retype %s: hinted type is larger than the storage' % name
+            s.decls.append('struct S_%s { %s f0typed; %s};' % (cid(name), s.ctype(x), ('unsigned char pad[%d]; ' % pad) if pad else ''))
+            return
         if isinstance(t, TStruct): s.emit_struct_def('S_' + cid(name), t)
         else: s.decls.append('struct S_%s { %s v; };' % (cid(name), s.ctype(t)))
     def emit_struct_def(s, nm, t):
@@ -358,6 +369,27 @@ class Emit:
             fs.append('%s f%d;' % (s.ctype(f), i))
         if not fs: fs = ['char _empty;']
         s.decls.append('struct %s { %s }%s;' % (nm, ' '.join(fs), ' __attribute__((packed))' if t.packed else ''))
+
+    def llsize(s, t):
+        """(size, align) of an LLVM type under the x86-64 data layout"""
+        t = s.resolve(t)
+        if isinstance(t, TInt):
+            b = max(1, (t.n + 7) // 8)
+            n = 1
+            while n < b: n *= 2
+            return n, min(n, 16)
+        if isinstance(t, TFP): return {'float': (4, 4), 'double': (8, 8), 'x86_fp80': (16, 16), 'half': (2, 2), 'fp128': (16, 16)}[t.k]
+        if isinstance(t, TPtr): return 8, 8
+        if isinstance(t, TArr):
+            sz, al = s.llsize(t.el); return sz * t.n, al
+        if isinstance(t, TStruct):
+            off = 0; mal = 1
+            for f in t.fields:
+                sz, al = s.llsize(f)
+                if t.packed: al = 1
+                off = (off + al - 1) // al * al + sz; mal = max(mal, al)
+            return (off + mal - 1) // mal * mal, mal
+        raise NotImplementedError('sizeof %r' % (t,))
 
     def zero(s, t):
         t0 = s.resolve(t)
@@ -456,7 +488,15 @@ class Emit:
         first = idx[0][1]
         e = '%s[(long)%s]' % (e, s.sx(idx[0][0], first))
         t = bt
-        for (it, ie), raw in zip(idx[1:], rawidx[1:]):
+        rest = list(zip(idx[1:], rawidx[1:]))
+        for k, ((it, ie), raw) in enumerate(rest):
+            if isinstance(t, TNamed) and t.name in s.retype:
+                # remaining indices address bytes of the storage: {[N x i8]} -> field 0, then byte index
+                assert len(rest) - k <= 2, 'gep into retyped storage'
+                if len(rest) - k == 2:
+                    (bt_, be), braw = rest[k + 1]
+                    return '(((char*)&%s) + (long)%s)' % (e, s.sx(bt_, be))
+                return '((char*)&%s)' % e
             t0 = s.resolve(t)
             if isinstance(t0, TStruct):
                 n = int(raw[1]) if raw[0] == 'num' else None
@@ -533,11 +573,14 @@ class Emit:
         insts = {}
         parsed = []
         s.defs = {}
+        s.bitcasts = {}
         for b in blocks:
             pb = []
             for ln in b[1]:
                 pi = s.parse_inst(ln, vt)
                 if pi['dst']: s.defs[pi['dst']] = pi
+                if pi['op'] == 'bitcast' and pi['a'][0] == 'local' and isinstance(pi['ty'], TPtr):
+                    s.bitcasts.setdefault(pi['a'][1], pi['ty'].to)
                 pb.append(pi)
             parsed.append((b[0], pb))
         # phi collection
@@ -843,6 +886,23 @@ class Emit:
                 r = s.intrinsic(n, ins, A, d)
                 return r + ([edge(lab, ins['normal'])] if ins['op'] == 'invoke' else [])
             while name in s.m.aliases and s.m.aliases[name][0] == 'glob': name = s.m.aliases[name][1]
+            if n in ('_Znwm', '_Znam') and d and ins['dst'] in s.bitcasts:
+                # typed allocation: CBMC derives the dynamic object's type from the sizeof pattern, which keeps
+                # field sensitivity and constant propagation for heap objects (operator new never fails: models.c)
+                et = s.bitcasts[ins['dst']]
+                try:
+                    esz = s.llsize(et)[0]
+                except Exception:
+                    esz = None
+                r0 = s.resolve(et)
+                sizearg = args[0][1]
+                alloc = None
+                if esz and sizearg[0] == 'num' and int(sizearg[1]) == esz and isinstance(r0, (TStruct, TArr)):
+                    alloc = 'malloc(sizeof(%s))' % s.ctype(et)
+                elif esz and isinstance(r0, (TInt, TFP, TPtr)) and esz > 1:
+                    alloc = 'malloc(sizeof(%s) * (%s / %dUL))' % (s.ctype(et), A[0], esz)
+                if alloc:
+                    return ['%s = (char*) %s; __CPROVER_assume(%s != 0);' % (d, alloc, d)] + ([edge(lab, ins['normal'])] if ins['op'] == 'invoke' else [])
             s.use_func(name)
             f = s.m.funcs[name]
             # varargs / type mismatch: cast args
@@ -955,13 +1015,17 @@ def main():
     ap.add_argument('--header', default='')
     ap.add_argument('--ub', action='store_true')
     ap.add_argument('--race', action='store_true')
+    ap.add_argument('--retype', action='append', default=[], help='NAME=LLVMTYPE: give a byte-array storage struct the type of its content')
     a = ap.parse_args()
     m = parse_module(open(a.ll).read())
     models = set()
     for mf in [x for x in a.models.split(',') if x]:
         for mm in re.finditer(r'^\s*(?:[A-Za-z_][\w\s\*]*?)\b([A-Za-z_]\w*)\s*\([^;{]*\)\s*\{', open(mf).read(), re.M):
             models.add(mm.group(1))
-    e = Emit(m, a.root, models, {'ub': a.ub, 'race': a.race})
+    rt = {}
+    for x in a.retype:
+        k, v = x.split('=', 1); rt[k] = v
+    e = Emit(m, a.root, models, {'ub': a.ub, 'race': a.race, 'retype': rt})
     c = e.run()
     open(a.o, 'w').write(c)
     if a.header:
